@@ -266,18 +266,21 @@ pub fn records(rng: &mut Rng, cfg: &Cfg) -> Vec<Rec> {
         if r.chance(1, 3) && n_chains > 1 {
             chain_seq.push(chain_seq[0]); // a chain id that comes back after another chain
         }
-        let use_blank = cfg.blank_chains && r.chance(1, 5);
+        let use_blank = cfg.blank_chains && r.chance(2, 5);
         let mut resnum: isize = if cfg.wraps && r.chance(1, 4) { 9_995 + r.below(4) as isize } else { r.range(-3, 40) as isize };
         for (ci, chain) in chain_seq.iter().enumerate() {
             let n_res = 1 + r.below(3);
             for _ in 0..n_res {
                 let ins = if r.chance(1, 6) { Some(*r.pick(&['A', 'b', 'Z'])) } else { None };
                 let resname = *r.pick(&resnames);
-                let alt_mode = r.below(5); // 0,1,2: none; 3: partial (some atoms blank); 4: full
+                let alt_mode = r.below(8); // 0,1,2: none; 3,5,6,7: partial (some atoms blank; one, two or three labels; blank first or in the middle); 4: full
                 let n_atoms = 1 + r.below(4);
                 let alts: Vec<Option<char>> = match alt_mode {
                     3 => vec![None, Some('A'), Some('b')],
                     4 => vec![Some('A'), Some('B')],
+                    5 => vec![None, Some('A')],
+                    6 => vec![Some('A'), None, Some('B')],
+                    7 => vec![None, Some('A'), Some('B'), Some('C')],
                     _ => vec![None],
                 };
                 for alt in alts {
